@@ -22,15 +22,34 @@ import (
 )
 
 type SyncSpec struct {
-	N           int    `json:"n"`      // validators
-	Prefix      int    `json:"prefix"` // common blocks after genesis
-	Own         int    `json:"own"`    // length of A's fork
-	Peer        int    `json:"peer"`   // length of B's fork
-	Full        bool   `json:"full"`   // all validators forge (finality advances); otherwise two of them (no finality)
-	HCB         string `json:"hcb"`    // honest | none | foreign | low
-	Corrupt     int    `json:"corrupt"`     // index in the served stream of the corrupted block, -1 = none
-	CorruptKind string `json:"corruptkind"` // sig (processing rejects) | static (Validate rejects)
-	ErrAfter    int    `json:"errafter"`    // answer an error once this many blocks have been served, -1 = never
+	N           int    `json:"n"`               // validators
+	Prefix      int    `json:"prefix"`          // common blocks after genesis
+	Own         int    `json:"own"`             // length of A's fork
+	Peer        int    `json:"peer"`            // length of B's fork
+	Full        bool   `json:"full"`            // all validators forge (finality advances); otherwise two of them (no finality)
+	HCB         string `json:"hcb"`             // honest | none | foreign | low
+	Corrupt     int    `json:"corrupt"`         // index in the served stream of the corrupted block, -1 = none
+	CorruptKind string `json:"corruptkind"`     // sig (processing rejects) | static (Validate rejects)
+	ErrAfter    int    `json:"errafter"`        // answer an error once this many blocks have been served, -1 = never
+	Stall       string `json:"stall,omitempty"` // instead of the error: "empty" = answer zero blocks forever, "repeat" = answer the first segment forever
+	// optional second sync on the same node afterwards (a later block from the same peer): A first extends its chain by Own2
+	// blocks; the peer then follows this script
+	Second       bool   `json:"second,omitempty"`
+	Own2         int    `json:"own2,omitempty"`
+	HCB2         string `json:"hcb2,omitempty"`
+	Corrupt2     int    `json:"corrupt2,omitempty"`
+	CorruptKind2 string `json:"corruptkind2,omitempty"`
+	ErrAfter2    int    `json:"errafter2,omitempty"`
+	Stall2       string `json:"stall2,omitempty"`
+}
+
+// script of the peer for one sync
+type peerScript struct {
+	hcb         string
+	corrupt     int
+	corruptKind string
+	errAfter    int
+	stall       string
 }
 
 type SyncObs struct {
@@ -38,7 +57,9 @@ type SyncObs struct {
 	Kind       string      `json:"kind"`   // fast | block
 	Before     []uint64    `json:"before"` // A's chain as codes, index = height
 	After      []uint64    `json:"after"`
-	Finalized  uint32      `json:"finalized"` // A's finalized height before
+	Phase      int         `json:"phase"`      // 1 = first sync of the scenario, 2 = second
+	TempBefore [][2]uint64 `json:"tempbefore"` // (height, code) of A's temp blocks before this sync
+	Finalized  uint32      `json:"finalized"`  // A's finalized height before
 	TargetH    uint32      `json:"targeth"`
 	Common     *uint64     `json:"common"`    // code of the ID B answered to getHighestCommonBlock (last answer), nil = none
 	Delivered  []uint64    `json:"delivered"` // blocks that reached the syncer and passed Validate, in order
@@ -46,8 +67,8 @@ type SyncObs struct {
 	Links      [][2]uint64 `json:"links"`     // (parent code, block code) of every honest block: the validity oracle
 	Err        string      `json:"err"`       // "" = Sync returned nil
 	Banned     bool        `json:"banned"`
-	TempAfter  [][2]uint64 `json:"tempafter"` // (height, code) of A's temp blocks afterwards
-	DBEqual    bool        `json:"dbequal"`   // A's whole database equals the one before
+	TempAfter  [][2]uint64 `json:"tempafter"`        // (height, code) of A's temp blocks afterwards
+	DBEqual    bool        `json:"dbequal"`          // A's whole database equals the one before
 	DBDiff     []string    `json:"dbdiff,omitempty"` // differing keys (hex, at most 8) when the chain is unchanged but the database is not
 	Hang       bool        `json:"hang,omitempty"`
 	Panic      string      `json:"panic,omitempty"`
@@ -126,24 +147,36 @@ func firstLine(v interface{}) string { return strings.SplitN(fmt.Sprint(v), "\n"
 // RunSync builds the scenario, runs A's Syncer once against B and reports the projected observation.
 // pre, when non-nil, is called with node A after the chains are built and before the sync; after, when non-nil, once the
 // sync returned (used by C15 to forge before and after a failing block sync).
-func RunSync(spec SyncSpec, pre, after func(a *exh.Node)) (obs SyncObs) {
+func RunSync(spec SyncSpec, pre, after func(a *exh.Node)) SyncObs {
+	all := RunSyncAll(spec, pre, after)
+	return all[0]
+}
+
+// RunSyncAll returns one observation per sync of the scenario (two when spec.Second).
+func RunSyncAll(spec SyncSpec, pre, after func(a *exh.Node)) (out []SyncObs) {
+	var obs SyncObs
+	defer func() {
+		if len(out) == 0 {
+			out = []SyncObs{obs}
+		}
+	}()
 	obs = SyncObs{Spec: spec, Before: []uint64{}, After: []uint64{}, Delivered: []uint64{}, Links: [][2]uint64{}, TempAfter: [][2]uint64{}}
 	cd := &coder{m: map[string]uint64{}}
 	a, err := exh.New(exh.Options{N: spec.N})
 	if err != nil {
 		obs.Fail = "node A: " + err.Error()
-		return obs
+		return nil
 	}
 	defer a.DB.Close()
 	b, err := exh.New(exh.Options{N: spec.N, GenesisTime: a.Opt.GenesisTime})
 	if err != nil {
 		obs.Fail = "node B: " + err.Error()
-		return obs
+		return nil
 	}
 	defer b.DB.Close()
 	if !bytes.Equal(a.Genesis.Header.ID, b.Genesis.Header.ID) {
 		obs.Fail = "genesis blocks differ"
-		return obs
+		return nil
 	}
 	link := func(blk *blockchain.Block) {
 		obs.Links = append(obs.Links, [2]uint64{cd.of(blk.Header.PreviousBlockID), cd.of(blk.Header.ID)})
@@ -153,11 +186,11 @@ func RunSync(spec SyncSpec, pre, after func(a *exh.Node)) (obs SyncObs) {
 		blk := nextBlock(a, spec.Full, 0)
 		if r := a.ProcessValidated(blk, false); !r.OK() {
 			obs.Fail = fmt.Sprintf("prefix block %d on A: %v %s", i, r.Err, r.Panic)
-			return obs
+			return nil
 		}
 		if r := b.ProcessValidated(clone(blk), false); !r.OK() {
 			obs.Fail = fmt.Sprintf("prefix block %d on B: %v %s", i, r.Err, r.Panic)
-			return obs
+			return nil
 		}
 		link(blk)
 	}
@@ -165,7 +198,7 @@ func RunSync(spec SyncSpec, pre, after func(a *exh.Node)) (obs SyncObs) {
 		blk := nextBlock(a, spec.Full, 0)
 		if r := a.ProcessValidated(blk, false); !r.OK() {
 			obs.Fail = fmt.Sprintf("own block %d: %v %s", i, r.Err, r.Panic)
-			return obs
+			return nil
 		}
 		link(blk)
 	}
@@ -177,32 +210,15 @@ func RunSync(spec SyncSpec, pre, after func(a *exh.Node)) (obs SyncObs) {
 		blk := nextBlock(b, spec.Full, extra)
 		if r := b.ProcessValidated(blk, false); !r.OK() {
 			obs.Fail = fmt.Sprintf("peer block %d: %v %s", i, r.Err, r.Panic)
-			return obs
+			return nil
 		}
 		link(blk)
 	}
 	if pre != nil {
 		pre(a)
 	}
-	fin, err := a.Finalized()
-	if err != nil {
-		obs.Fail = "finalized: " + err.Error()
-		return obs
-	}
-	obs.Finalized = fin
-	obs.Before = chainCodes(a, cd)
-	obs.TargetH = b.Tip().Header.Height
-	diff := int(b.Tip().Header.Height) - int(a.Tip().Header.Height)
-	if diff < 0 {
-		diff = -diff
-	}
-	if diff <= 2*spec.N {
-		obs.Kind = "fast"
-	} else {
-		obs.Kind = "block"
-	}
 
-	// ---- peer B: real handlers over B's chain, wrapped by the script
+	// ---- peer B: real handlers over B's chain, wrapped by the script of the current phase
 	lg, _ := log.NewSilentLogger()
 	slot := validator.NewBlockSlot(a.Opt.GenesisTime, a.Opt.BlockTime)
 	connA, _ := startConn(a.Opt.ChainID)
@@ -210,48 +226,52 @@ func RunSync(spec SyncSpec, pre, after func(a *exh.Node)) (obs SyncObs) {
 	noProc := func(ctx context.Context, block *blockchain.Block, publish bool, removeTemp bool) error {
 		return fmt.Errorf("not used")
 	}
-	noRev := func(ctx context.Context, deletingBlock *blockchain.Block, saveTemp bool) error { return fmt.Errorf("not used") }
+	noRev := func(ctx context.Context, deletingBlock *blockchain.Block, saveTemp bool) error {
+		return fmt.Errorf("not used")
+	}
 	syncerB := csync.NewSyncer(b.Chain, slot, connB, lg, noProc, noRev)
 	realLast := syncerB.HandleRPCEndpointGetLastBlock()
 	realHCB := syncerB.HandleRPCEndpointGetHighestCommonBlock()
 	realBFI := syncerB.HandleRPCEndpointGetBlocksFromID()
-	served := 0
 	type item struct {
 		code   uint64
 		static bool
 	}
-	stream := []item{}
-	sawErr := false
+	var (
+		sc       peerScript
+		served   int
+		stream   []item
+		common   *uint64
+		firstSeg []byte
+	)
 	_ = connB.RegisterRPCHandler(csync.RPCEndpointGetLastBlock, realLast)
 	_ = connB.RegisterRPCHandler(csync.RPCEndpointGetHighestCommonBlock, func(w p2p.ResponseWriter, r *p2p.Request) {
-		switch spec.HCB {
+		answer := func(id []byte) {
+			c := cd.of(id)
+			common = &c
+			w.Write((&csync.GetHighestCommonBlockResponse{ID: id}).Encode())
+		}
+		switch sc.hcb {
 		case "none":
-			obs.Common = nil
+			common = nil
 			w.Write(nil)
 			return
 		case "foreign":
-			id := b.Tip().Header.ID
-			c := cd.of(id)
-			obs.Common = &c
-			w.Write((&csync.GetHighestCommonBlockResponse{ID: id}).Encode())
+			answer(b.Tip().Header.ID)
 			return
 		case "low":
-			id := a.Genesis.Header.ID
-			c := cd.of(id)
-			obs.Common = &c
-			w.Write((&csync.GetHighestCommonBlockResponse{ID: id}).Encode())
+			answer(a.Genesis.Header.ID)
 			return
 		}
 		cw := &capWriter{}
 		realHCB(cw, r)
+		common = nil
 		if cw.wrote && len(cw.data) > 0 {
 			resp := &csync.GetHighestCommonBlockResponse{}
 			if err := resp.Decode(cw.data); err == nil {
 				c := cd.of(resp.ID)
-				obs.Common = &c
+				common = &c
 			}
-		} else {
-			obs.Common = nil
 		}
 		if cw.errSet != nil {
 			w.Error(cw.errSet)
@@ -262,15 +282,24 @@ func RunSync(spec SyncSpec, pre, after func(a *exh.Node)) (obs SyncObs) {
 		}
 	})
 	_ = connB.RegisterRPCHandler(csync.RPCEndpointGetBlocksFromID, func(w p2p.ResponseWriter, r *p2p.Request) {
-		if spec.ErrAfter >= 0 && served >= spec.ErrAfter {
-			sawErr = true
-			w.Error(fmt.Errorf("scripted peer: no more blocks"))
+		if sc.errAfter >= 0 && served >= sc.errAfter {
+			switch sc.stall {
+			case "empty": // a well-formed response that decodes to zero blocks
+				w.Write([]byte{0x10, 0x00})
+			case "repeat": // the first segment again, whatever was asked
+				if firstSeg == nil {
+					w.Write([]byte{0x10, 0x00})
+				} else {
+					w.Write(firstSeg)
+				}
+			default:
+				w.Error(fmt.Errorf("scripted peer: no more blocks"))
+			}
 			return
 		}
 		cw := &capWriter{}
 		realBFI(cw, r)
 		if cw.errSet != nil || !cw.wrote {
-			sawErr = true
 			if cw.errSet != nil {
 				w.Error(cw.errSet)
 			}
@@ -278,19 +307,18 @@ func RunSync(spec SyncSpec, pre, after func(a *exh.Node)) (obs SyncObs) {
 		}
 		resp := &csync.GetBlocksFromIDResponse{}
 		if err := resp.Decode(cw.data); err != nil {
-			sawErr = true
 			w.Error(err)
 			return
 		}
-		out := []*blockchain.Block{}
+		outBlocks := []*blockchain.Block{}
 		for _, blk := range resp.Blocks {
-			if spec.ErrAfter >= 0 && served >= spec.ErrAfter {
+			if sc.errAfter >= 0 && served >= sc.errAfter {
 				break
 			}
 			blk.Init()
 			it := item{}
-			if served == spec.Corrupt {
-				if spec.CorruptKind == "static" {
+			if served == sc.corrupt {
+				if sc.corruptKind == "static" {
 					blk.Header.Signature = codec.Hex{1, 2, 3}
 					it.static = true
 				} else {
@@ -302,11 +330,16 @@ func RunSync(spec SyncSpec, pre, after func(a *exh.Node)) (obs SyncObs) {
 			}
 			it.code = cd.of(blk.Header.ID)
 			stream = append(stream, it)
-			out = append(out, blk)
+			outBlocks = append(outBlocks, blk)
 			served++
 		}
-		w.Write((&csync.GetBlocksFromIDResponse{Blocks: out}).Encode())
+		data := (&csync.GetBlocksFromIDResponse{Blocks: outBlocks}).Encode()
+		if firstSeg == nil && len(outBlocks) > 0 {
+			firstSeg = data
+		}
+		w.Write(data)
 	})
+
 	// ---- node A: the real Syncer over A's chain, processing / reverting through A's real Executer
 	proc := func(ctx context.Context, block *blockchain.Block, publish bool, removeTemp bool) error {
 		return a.Exec.VerifC03ProcessValidated(ctx, block, false, removeTemp)
@@ -321,126 +354,180 @@ func RunSync(spec SyncSpec, pre, after func(a *exh.Node)) (obs SyncObs) {
 	_ = connA.RegisterRPCHandler(csync.RPCEndpointGetBlocksFromID, syncerA.HandleRPCEndpointGetBlocksFromID())
 	if err := connA.Start([]byte{}); err != nil {
 		obs.Fail = "start A: " + err.Error()
-		return obs
+		return nil
 	}
 	defer connA.Stop() //nolint:errcheck
 	if err := connB.Start([]byte{}); err != nil {
 		obs.Fail = "start B: " + err.Error()
-		return obs
+		return nil
 	}
 	defer connB.Stop() //nolint:errcheck
 	addrs, err := connB.Peer.MultiAddress()
 	if err != nil || len(addrs) == 0 {
 		obs.Fail = "B has no address"
-		return obs
+		return nil
 	}
 	info, err := p2p.AddrInfoFromMultiAddr(addrs[0])
 	if err != nil {
 		obs.Fail = "addr: " + err.Error()
-		return obs
+		return nil
 	}
 	if err := connA.Peer.Connect(context.Background(), *info); err != nil {
 		obs.Fail = "connect: " + err.Error()
-		return obs
+		return nil
 	}
-
 	vals := make([]codec.Lisk32, 0, spec.N)
 	for _, ad := range a.GeneratorAddrs() {
 		vals = append(vals, ad)
 	}
-	finHeader := a.HeaderAt(fin)
-	lowBefore := [][]byte{}
-	for h := uint32(0); h <= fin; h++ {
-		lowBefore = append(lowBefore, a.HeaderAt(h).ID)
-	}
-	dumpBeforeKV := a.Dump()
-	ctx, cancel := context.WithTimeout(context.Background(), 25*time.Second)
-	defer cancel()
-	sctx := &csync.SyncContext{Ctx: ctx, Block: clone(b.Tip()), FinalizedBlockHeader: finHeader, PeerID: connB.Peer.ID(), CurrentValidators: vals}
-	done := make(chan string, 1)
-	go func() {
-		defer func() {
-			if r := recover(); r != nil {
-				done <- "PANIC " + firstLine(r)
+	tempOf := func() [][2]uint64 {
+		res := [][2]uint64{}
+		if tb, err := a.Chain.DataAccess().GetTempBlocks(); err == nil {
+			blockchain.SortBlockByHeightAsc(tb)
+			for _, t := range tb {
+				res = append(res, [2]uint64{uint64(t.Header.Height), cd.of(t.Header.ID)})
 			}
+		}
+		return res
+	}
+
+	phases := []peerScript{{hcb: spec.HCB, corrupt: spec.Corrupt, corruptKind: spec.CorruptKind, errAfter: spec.ErrAfter, stall: spec.Stall}}
+	if spec.Second {
+		phases = append(phases, peerScript{hcb: spec.HCB2, corrupt: spec.Corrupt2, corruptKind: spec.CorruptKind2, errAfter: spec.ErrAfter2, stall: spec.Stall2})
+	}
+	bannedBefore := false
+	for ph, script := range phases {
+		if ph == 1 {
+			for i := 0; i < spec.Own2; i++ {
+				blk := nextBlock(a, spec.Full, 2*spec.N) // later slots than the peer's blocks at these heights: different blocks
+				if r := a.ProcessValidated(blk, false); !r.OK() {
+					obs.Fail = fmt.Sprintf("own2 block %d: %v %s", i, r.Err, r.Panic)
+					out = append(out, obs)
+					return out
+				}
+				link(blk)
+			}
+			if bannedBefore { // the first sync banned the peer: no second sync with it
+				return out
+			}
+		}
+		obs = SyncObs{Spec: spec, Phase: ph + 1, Before: []uint64{}, After: []uint64{}, Delivered: []uint64{}, Links: obs.Links, TempAfter: [][2]uint64{}}
+		sc, served, stream, common, firstSeg = script, 0, nil, nil, nil
+		fin, err := a.Finalized()
+		if err != nil {
+			obs.Fail = "finalized: " + err.Error()
+			out = append(out, obs)
+			return out
+		}
+		obs.Finalized = fin
+		obs.Before = chainCodes(a, cd)
+		obs.TempBefore = tempOf()
+		obs.TargetH = b.Tip().Header.Height
+		diff := int(b.Tip().Header.Height) - int(a.Tip().Header.Height)
+		if diff < 0 {
+			diff = -diff
+		}
+		if diff <= 2*spec.N {
+			obs.Kind = "fast"
+		} else {
+			obs.Kind = "block"
+		}
+		finHeader := a.HeaderAt(fin)
+		lowBefore := [][]byte{}
+		for h := uint32(0); h <= fin; h++ {
+			lowBefore = append(lowBefore, a.HeaderAt(h).ID)
+		}
+		dumpBeforeKV := a.Dump()
+		ctx, cancel := context.WithTimeout(context.Background(), 25*time.Second)
+		sctx := &csync.SyncContext{Ctx: ctx, Block: clone(b.Tip()), FinalizedBlockHeader: finHeader, PeerID: connB.Peer.ID(), CurrentValidators: vals}
+		done := make(chan string, 1)
+		go func() {
+			defer func() {
+				if r := recover(); r != nil {
+					done <- "PANIC " + firstLine(r)
+				}
+			}()
+			if err := syncerA.Sync(sctx); err != nil {
+				done <- "ERR " + firstLine(err)
+				return
+			}
+			done <- ""
 		}()
-		if err := syncerA.Sync(sctx); err != nil {
-			done <- "ERR " + firstLine(err)
-			return
+		hang := false
+		select {
+		case res := <-done:
+			if strings.HasPrefix(res, "PANIC ") {
+				obs.Panic = res[6:]
+			} else if strings.HasPrefix(res, "ERR ") {
+				obs.Err = res[4:]
+			}
+		case <-time.After(12 * time.Second):
+			hang = true
 		}
-		done <- ""
-	}()
-	select {
-	case res := <-done:
-		if strings.HasPrefix(res, "PANIC ") {
-			obs.Panic = res[6:]
-		} else if strings.HasPrefix(res, "ERR ") {
-			obs.Err = res[4:]
+		cancel()
+		if hang {
+			obs.Hang = true
+			out = append(out, obs)
+			return out
 		}
-	case <-time.After(30 * time.Second):
-		obs.Hang = true
-		return obs
-	}
-	// delivered blocks / ending, as the downloader consumed them
-	obs.Ending = "ok"
-	target := cd.of(b.Tip().Header.ID)
-	reached := false
-	for _, it := range stream {
-		if it.static {
-			obs.Ending = "invalid"
-			break
+		// delivered blocks / ending, as the downloader consumed them
+		obs.Common = common
+		obs.Ending = "ok"
+		target := cd.of(b.Tip().Header.ID)
+		reached := false
+		for _, it := range stream {
+			if it.static {
+				obs.Ending = "invalid"
+				break
+			}
+			obs.Delivered = append(obs.Delivered, it.code)
+			if it.code == target {
+				reached = true
+				break
+			}
 		}
-		obs.Delivered = append(obs.Delivered, it.code)
-		if it.code == target {
-			reached = true
-			break
+		if obs.Ending == "ok" && !reached {
+			obs.Ending = "err"
 		}
-	}
-	if obs.Ending == "ok" && !reached {
-		obs.Ending = "err"
-	}
-	_ = sawErr
-	obs.After = chainCodes(a, cd)
-	obs.Banned = len(connA.Peer.BlacklistedPeers()) > 0
-	if tb, err := a.Chain.DataAccess().GetTempBlocks(); err == nil {
-		blockchain.SortBlockByHeightAsc(tb)
-		for _, t := range tb {
-			obs.TempAfter = append(obs.TempAfter, [2]uint64{uint64(t.Header.Height), cd.of(t.Header.ID)})
+		obs.After = chainCodes(a, cd)
+		obs.Banned = len(connA.Peer.BlacklistedPeers()) > 0
+		bannedBefore = obs.Banned
+		obs.TempAfter = tempOf()
+		// byte-identical up to what finality legitimately changes: blocks applied and removed again may have advanced the
+		// finalized height (never rolled back, key 1b) which prunes the state diffs (prefix 33) at or below it
+		dumpAfterKV := a.Dump()
+		finAfter, _ := a.Finalized()
+		present := map[string]bool{}
+		for _, kv := range dumpAfterKV {
+			present[kv.K] = true
 		}
-	}
-	// byte-identical up to what finality legitimately changes: blocks applied and removed again may have advanced the
-	// finalized height (never rolled back, key 1b) which prunes the state diffs (prefix 33) at or below it
-	dumpAfterKV := a.Dump()
-	finAfter, _ := a.Finalized()
-	present := map[string]bool{}
-	for _, kv := range dumpAfterKV {
-		present[kv.K] = true
-	}
-	obs.DBEqual = true
-	for _, k := range exh.DiffKeys(dumpBeforeKV, dumpAfterKV) {
-		if k == "1b" {
-			continue
-		}
-		if strings.HasPrefix(k, "33") && len(k) == 10 && !present[k] {
-			var h uint64
-			fmt.Sscanf(k[2:], "%x", &h)
-			if uint32(h) <= finAfter {
+		obs.DBEqual = true
+		for _, k := range exh.DiffKeys(dumpBeforeKV, dumpAfterKV) {
+			if k == "1b" {
 				continue
 			}
+			if strings.HasPrefix(k, "33") && len(k) == 10 && !present[k] {
+				var h uint64
+				fmt.Sscanf(k[2:], "%x", &h)
+				if uint32(h) <= finAfter {
+					continue
+				}
+			}
+			obs.DBEqual = false
+			if len(obs.DBDiff) < 8 {
+				obs.DBDiff = append(obs.DBDiff, k)
+			}
 		}
-		obs.DBEqual = false
-		if len(obs.DBDiff) < 8 {
-			obs.DBDiff = append(obs.DBDiff, k)
+		for h := uint32(0); h <= fin; h++ {
+			hd := a.HeaderAt(h)
+			if hd == nil || !bytes.Equal(hd.ID, lowBefore[h]) {
+				obs.LowDeleted = true
+			}
+		}
+		out = append(out, obs)
+		if ph == 0 && after != nil {
+			after(a)
 		}
 	}
-	for h := uint32(0); h <= fin; h++ {
-		hd := a.HeaderAt(h)
-		if hd == nil || !bytes.Equal(hd.ID, lowBefore[h]) {
-			obs.LowDeleted = true
-		}
-	}
-	if after != nil {
-		after(a)
-	}
-	return obs
+	return out
 }
